@@ -81,15 +81,15 @@ type Fn struct {
 	ps     *pkgSrc
 	body   *Node
 
-	vparams  []types.Object // receiver/params of pointer-to-state-owned type, in order
-	live     map[types.Object]bool
-	fresh    map[types.Object]bool // locals that only ever hold objects allocated in this function
-	envDone  bool
-	retLive  int // 0 unknown, 1 computing, 2 false, 3 true
-	relevant bool
-	outID    int // index in the emitted table, -1 if not emitted
-	nlits    int
-	closures map[types.Object]*ast.FuncLit
+	vparams   []types.Object // receiver/params of pointer-to-state-owned type, in order
+	live      map[types.Object]bool
+	fresh     map[types.Object]bool // locals that only ever hold objects allocated in this function
+	envDone   bool
+	retLive   int // 0 unknown, 1 computing, 2 false, 3 true
+	relevant  bool
+	outID     int // index in the emitted table, -1 if not emitted
+	nlits     int
+	closures  map[types.Object]*ast.FuncLit
 	synthetic bool
 }
 
@@ -126,15 +126,15 @@ type world struct {
 	entries map[*Fn]string
 
 	// audit
-	seenSync   map[token.Pos]string
-	seenSel    map[token.Pos]string
-	unknowns   []string
-	notes      []string
-	instNotes  map[string]int
-	sites      map[string]bool
-	siteUsed   map[string]bool
+	seenSync    map[token.Pos]string
+	seenSel     map[token.Pos]string
+	unknowns    []string
+	notes       []string
+	instNotes   map[string]int
+	sites       map[string]bool
+	siteUsed    map[string]bool
 	auditFailed bool
-	auditText  string
+	auditText   string
 }
 
 func newWorld(fset *token.FileSet, pkgs []*pkgSrc, mc *modelConf) *world {
@@ -594,17 +594,17 @@ type gotoLbl struct {
 type loopLbl struct{ brk, cont int }
 
 type tr struct {
-	w     *world
-	fn    *Fn
-	info  *types.Info
-	nlbl  int
-	brk   []int
-	cont  []int
-	gotos map[types.Object]*gotoLbl
-	lblOf map[types.Object]*loopLbl
+	w           *world
+	fn          *Fn
+	info        *types.Info
+	nlbl        int
+	brk         []int
+	cont        []int
+	gotos       map[types.Object]*gotoLbl
+	lblOf       map[types.Object]*loopLbl
 	gotoTargets map[types.Object]bool
-	valueCtx string
-	siteCount map[string]int
+	valueCtx    string
+	siteCount   map[string]int
 }
 
 func (t *tr) newLbl() int { t.nlbl++; return t.nlbl }
